@@ -318,7 +318,7 @@ func verifyWithSPKI(spki, alg *der.Node, tbs, sig []byte) tri {
 		return triUnknown
 	}
 	ka := spki.Children[0]
-	if !ka.IsUniversal(der.TagSequence) || len(ka.Children) < 1 || !ka.Children[0].IsUniversal(der.TagOID) {
+	if !ka.IsUniversal(der.TagSequence) || !ka.Constructed || len(ka.Children) < 1 || !ka.Children[0].IsPrimitive(der.TagOID) {
 		return triUnknown
 	}
 	keyOID := der.ParseOID(ka.Children[0].Content)
@@ -331,7 +331,7 @@ func verifyWithSPKI(spki, alg *der.Node, tbs, sig []byte) tri {
 		return triUnknown
 	}
 	kb = kb[1:]
-	if !alg.Children[0].IsUniversal(der.TagOID) {
+	if !alg.Children[0].IsPrimitive(der.TagOID) {
 		return triUnknown
 	}
 	sigOID := der.ParseOID(alg.Children[0].Content)
@@ -375,11 +375,11 @@ func verifyWithSPKI(spki, alg *der.Node, tbs, sig []byte) tri {
 			return triUnknown
 		}
 		kn, err := der.ParseAll(kb)
-		if err != nil || len(kn) != 1 || !kn[0].IsUniversal(der.TagSequence) || len(kn[0].Children) != 2 || !kn[0].Canonical() {
+		if err != nil || len(kn) != 1 || !kn[0].IsUniversal(der.TagSequence) || !kn[0].Constructed || len(kn[0].Children) != 2 || !kn[0].Canonical() {
 			return triUnknown
 		}
 		nN, nE := kn[0].Children[0], kn[0].Children[1]
-		if !nN.IsUniversal(der.TagInteger) || !nE.IsUniversal(der.TagInteger) || !minimalInt(nN.Content) || !minimalInt(nE.Content) {
+		if !nN.IsPrimitive(der.TagInteger) || !nE.IsPrimitive(der.TagInteger) || !minimalInt(nN.Content) || !minimalInt(nE.Content) {
 			return triUnknown
 		}
 		N := new(big.Int).SetBytes(nN.Content)
@@ -437,7 +437,7 @@ func verifyWithSPKI(spki, alg *der.Node, tbs, sig []byte) tri {
 		default:
 			return triUnknown
 		}
-		if len(ka.Children) != 2 || !ka.Children[1].IsUniversal(der.TagOID) {
+		if len(ka.Children) != 2 || !ka.Children[1].IsPrimitive(der.TagOID) {
 			return triUnknown
 		}
 		co := der.ParseOID(ka.Children[1].Content)
@@ -466,11 +466,11 @@ func verifyWithSPKI(spki, alg *der.Node, tbs, sig []byte) tri {
 		if err != nil || len(sn) != 1 {
 			return triUnknown
 		}
-		if !sn[0].IsUniversal(der.TagSequence) || len(sn[0].Children) != 2 || !sn[0].Canonical() {
+		if !sn[0].IsUniversal(der.TagSequence) || !sn[0].Constructed || len(sn[0].Children) != 2 || !sn[0].Canonical() {
 			return triUnknown
 		}
 		a, b := sn[0].Children[0], sn[0].Children[1]
-		if !a.IsUniversal(der.TagInteger) || !b.IsUniversal(der.TagInteger) || !minimalInt(a.Content) || !minimalInt(b.Content) ||
+		if !a.IsPrimitive(der.TagInteger) || !b.IsPrimitive(der.TagInteger) || !minimalInt(a.Content) || !minimalInt(b.Content) ||
 			a.Content[0]&0x80 != 0 || b.Content[0]&0x80 != 0 {
 			return triUnknown
 		}
@@ -500,18 +500,18 @@ func verifyWithSPKI(spki, alg *der.Node, tbs, sig []byte) tri {
 		default:
 			return triUnknown
 		}
-		if len(ka.Children) != 2 || !ka.Children[1].IsUniversal(der.TagSequence) || len(ka.Children[1].Children) != 3 {
+		if len(ka.Children) != 2 || !ka.Children[1].IsUniversal(der.TagSequence) || !ka.Children[1].Constructed || len(ka.Children[1].Children) != 3 {
 			return triUnknown
 		}
 		var pqg [3]*big.Int
 		for i, n := range ka.Children[1].Children {
-			if !n.IsUniversal(der.TagInteger) || !minimalInt(n.Content) || n.Content[0]&0x80 != 0 {
+			if !n.IsPrimitive(der.TagInteger) || !minimalInt(n.Content) || n.Content[0]&0x80 != 0 {
 				return triUnknown
 			}
 			pqg[i] = new(big.Int).SetBytes(n.Content)
 		}
 		yn, err := der.ParseAll(kb)
-		if err != nil || len(yn) != 1 || !yn[0].IsUniversal(der.TagInteger) || !minimalInt(yn[0].Content) || yn[0].Content[0]&0x80 != 0 {
+		if err != nil || len(yn) != 1 || !yn[0].IsPrimitive(der.TagInteger) || !minimalInt(yn[0].Content) || yn[0].Content[0]&0x80 != 0 {
 			return triUnknown
 		}
 		Y := new(big.Int).SetBytes(yn[0].Content)
@@ -522,11 +522,11 @@ func verifyWithSPKI(spki, alg *der.Node, tbs, sig []byte) tri {
 			return triUnknown
 		}
 		sn, err := der.ParseAll(sig)
-		if err != nil || len(sn) != 1 || !sn[0].IsUniversal(der.TagSequence) || len(sn[0].Children) != 2 || !sn[0].Canonical() {
+		if err != nil || len(sn) != 1 || !sn[0].IsUniversal(der.TagSequence) || !sn[0].Constructed || len(sn[0].Children) != 2 || !sn[0].Canonical() {
 			return triUnknown
 		}
 		a, b := sn[0].Children[0], sn[0].Children[1]
-		if !a.IsUniversal(der.TagInteger) || !b.IsUniversal(der.TagInteger) || !minimalInt(a.Content) || !minimalInt(b.Content) ||
+		if !a.IsPrimitive(der.TagInteger) || !b.IsPrimitive(der.TagInteger) || !minimalInt(a.Content) || !minimalInt(b.Content) ||
 			a.Content[0]&0x80 != 0 || b.Content[0]&0x80 != 0 {
 			return triUnknown
 		}
